@@ -5,8 +5,8 @@
 
    TCP traffic is a decoded segment (Spec/P0fTcp.v `segment`, i.e. RFC 791/8200/9293 header fields):
      ver      `*` admits both IP versions
-     ittl     the signature's initial TTL minus a plausible hop count (<= 30); `NN-` ("random TTL, at most NN"):
-              any TTL <= NN
+     ittl     the signature's initial TTL (`54+10` = 64; at most 255) minus a plausible hop count (<= 30);
+              `NN-` ("random TTL, at most NN"): any TTL from 1 to NN
      olen     length of the IPv4 options (IPv6: 0)
      mss, ws  `*` admits anything (also: option absent), a number only itself; p0f reads a missing MSS / WS option
               as 0 (signatures such as `*:64:0:*:mss*12,0:mss::0` say scale 0 for a layout without `ws`), so 0 also
@@ -57,8 +57,8 @@ Definition conf_role (k : tkind) (g : segment) : bool :=
 
 Definition conf_ttl (st : ttl) (t : N) : bool :=
   match st with
-  | TtlBad i => t <=? i
-  | _ => let i := ttl_initial st in (t <=? i) && (i - t <=? max_hops)
+  | TtlBad i => (t <=? i) && ((0 <? t) || (i =? 0))            (* a packet that arrives has TTL >= 1 *)
+  | _ => let i := N.min 255 (ttl_initial st) in (t <=? i) && (i - t <=? max_hops)
   end.
 
 (* mss / wscale: `*` anything; n: the option carries n, or n = 0 and the option is absent *)
